@@ -42,6 +42,7 @@ class Contract:
         self.total = g('total', False)          # no exception allowed at all
         self.modifies = g('modifies', [])       # fields of self havocked by a call
         self.updates = g('updates', {})         # {field of self: spec function of the PRE-state} (mutators)
+        self.tier = g('tier', 'quick')          # 'thorough': verified in the thorough tier only (slow)
         self.trusted = g('trusted', False)      # assumed at call sites, body not verified (listed)
         self.c03 = g('c03', False)              # also prove Truthful(result) (C03 construction site)
         self.slice_vars = g('slice_vars')       # mechanical statement slice (see slice_function)
@@ -55,10 +56,14 @@ def _unwrap(x):
     return x
 
 
-def contract(qual, props=()):
+def contract(qual, props=(), variant=None):
+    """Register a contract.  `variant` registers an additional verification-only instance of the
+    same function (e.g. one per key form, so that the pool can verify them in parallel); call
+    sites always use the primary (variant-less) contract."""
     def deco(spec):
         c = Contract(qual, list(props), spec)
-        REGISTRY[qual] = c
+        c.variant = variant
+        REGISTRY[qual if variant is None else f'{qual}#{variant}'] = c
         return spec
     return deco
 
